@@ -87,9 +87,8 @@ ImplUnpackOk(k) ==
               /\ Len(k.msg.rr) = Len(r.rr)
               /\ \A j \in 1..Len(r.rr) : (NameOk(r.rr[j].name) /\ NameOk(r.rr[j].ptr)) => RREq(k.msg.rr[j], r.rr[j])
 OptRR(k) == [name |-> <<>>, type |-> 41, class |-> (IF k.edns < 16383 THEN k.edns ELSE 16383), ttl |-> <<0, 0, 0, 0>>, rdlen |-> 0, rdata |-> <<>>, ptr |-> <<>>]
-IOk(k) == /\ ~k.ub
-          /\ IF k.fn = "u" THEN ImplUnpackOk(k)
-             ELSE LET d == Decode(k.b) IN d.ok => (k.edns > 0 => d.m.ar = <<OptRR(k)>>)
+IOk(k) == IF k.fn = "u" THEN ~k.ub /\ ImplUnpackOk(k)
+          ELSE LET d == Decode(k.b) IN d.ok => (k.edns > 0 => d.m.ar = <<OptRR(k)>>)
 CaseOk == i > 0 => POk(Case)
 ImplOk == i > 0 => IOk(Case)
 ====
